@@ -2,7 +2,7 @@
 
 A codec is named by the same parameter string the Lean driver parses:
     sof=<hh>;hdr=S,<field>,...;foot=<kind>
-      field : L1 | L2le | L2be | I | F | F<hh>        (S first; exactly one L*, exactly one I; 3..8 bytes)
+      field : L1 | L<n>le | L<n>be (n=2..4) | I | F | F<hh>        (S first; exactly one L*, exactly one I; 3..8 bytes)
       kind  : xor | sum1 | sum<k>le | sum<k>be (k=2..4) | crc32le | crc32be
 
 Two INDEPENDENT implementations live here:
@@ -32,14 +32,14 @@ class Params:
 
     def valid(self):
         ls = [f for f in self.fields if f[0] == "L"]
-        return (len(ls) == 1 and ls[0][1] in (1, 2) and sum(1 for f in self.fields if f[0] == "I") == 1
+        return (len(ls) == 1 and ls[0][1] in (1, 2, 3, 4) and sum(1 for f in self.fields if f[0] == "I") == 1
                 and 3 <= self.hdr_len <= 8 and self.foot in FOOTS and 0 <= self.sof <= 255)
 
     def __str__(self):
         fs = []
         for f in self.fields:
             if f[0] == "L":
-                fs.append("L1" if f[1] == 1 else ("L2be" if f[2] else "L2le"))
+                fs.append("L1" if f[1] == 1 else "L%d%s" % (f[1], "be" if f[2] else "le"))
             elif f[0] == "I":
                 fs.append("I")
             else:
@@ -58,8 +58,8 @@ def parse_params(s):
             fields.append(("I",))
         elif n == "L1":
             fields.append(("L", 1, False))
-        elif n in ("L2le", "L2be"):
-            fields.append(("L", 2, n == "L2be"))
+        elif n in ("L2le", "L2be", "L3le", "L3be", "L4le", "L4be"):
+            fields.append(("L", int(n[1]), n.endswith("be")))
         elif n == "F":
             fields.append(("F", 0))
         elif n[0] == "F" and len(n) == 3:
@@ -75,8 +75,8 @@ def parse_params(s):
 def random_params(rng, hdr_len=None, foot=None):
     """a valid member; header length and footer kind can be pinned (stratified draws)"""
     hdr_len = hdr_len or rng.randrange(3, 9)
-    n = 1 if hdr_len == 3 else rng.choice([1, 2, 2])
-    fields = [("L", n, rng.random() < 0.5 if n == 2 else False), ("I",)]
+    n = rng.choice([w for w in (1, 2, 2, 2, 3, 4) if w <= hdr_len - 2])
+    fields = [("L", n, rng.random() < 0.5 if n >= 2 else False), ("I",)]
     for _ in range(hdr_len - 1 - n - 1):
         fields.append(("F", rng.choice([0, 0, 0xFF, rng.randrange(256)])))
     rng.shuffle(fields)
